@@ -59,8 +59,10 @@ def VecV.mapComps (f : ArrV → Res ArrV) (v : VecV) : Res VecV := do
   VecV.ofArrs cs
 
 /-- `Vector.to(unit)` -/
+def ArrV.toVal (a : ArrV) (u : U) : Res ArrV := (a.to u).map (·.1)
+
 def VecV.to (v : VecV) (u : U) : Res VecV :=
-  v.mapComps (fun c => do let (r, _) ← c.to u; pure r)
+  v.mapComps (·.toVal u)
 
 /-- `Vector.__getitem__` (keeps the name) -/
 def VecV.getIndex (v : VecV) (ix : Index) : Res VecV := do
